@@ -3,7 +3,7 @@ from collections import Counter
 from tools.vlib import *
 from checks import brainlib, c11, c15
 
-THEOREMS = []
+THEOREMS = ["C10_poisson", "C10_convolution", "C10_charge_zero", "C10_brain", "C10_inverse", "C10_formula", "C10_nonvacuous"]
 HEADER = """From Coq Require Import ZArith NArith List Bool Floats.
 From CE Require Import NumFloat ChargeCheck.
 Import ListNotations. Open Scope float_scope."""
